@@ -300,6 +300,7 @@ def run_history(ctx, pool, gold, limit, hno, alts):
     kept = {}
     kept_alias = {}
     hist = []
+    open_scans = []
     # eviction evidence at the API boundary: a table group asked for now and again after the history is another OBJECT when it
     # was evicted and rebuilt in between (no private name involved)
     try:
@@ -415,7 +416,58 @@ def run_history(ctx, pool, gold, limit, hno, alts):
                 ctx.count('history_steps')
                 ctx.evaluated((hno, ctx.shard, step, tuple(hist[-3:])), True)
                 continue
-            elif r < 0.62:
+            elif r < 0.66 and ok_idxs:
+                # scans in flight: a scan over two or three pool messages is started on one of the decoders and advanced ONE
+                # message at a time, at later steps of the history, while every other kind of operation goes on in between (and
+                # some scans are never finished).  Each message it delivers is the message a brand-new interpreter decodes.
+                from pybufrkit.decoder import generate_bufr_message
+                startable = len(open_scans) < 3
+                if startable and (not open_scans or rng.random() < 0.4):
+                    dn = rng.choice(list(decs))
+                    members = [rng.choice(ok_idxs) for _ in range(rng.choice([2, 3]))]
+                    stream = b'\r\r\n'.join(pool[j][1] for j in members)
+                    open_scans.append(dict(gen=generate_bufr_message(decs[dn], stream), members=members, at=0, dn=dn))
+                    hist.append('scan-started[%s]:%s' % (dn, '+'.join(pool[j][0] for j in members)))
+                    ctx.count('scans_started_in_histories')
+                    prev = 'scan-start'
+                else:
+                    sc = rng.choice(open_scans)
+                    j = sc['members'][sc['at']] if sc['at'] < len(sc['members']) else None
+                    hist.append('scan-advanced[%s]:%s' % (sc['dn'], pool[j][0] if j is not None else 'end'))
+                    ctx.count('scan_steps_in_histories')
+                    try:
+                        m = next(sc['gen'])
+                    except StopIteration:
+                        if j is not None:
+                            ctx.violate('history-dependence/scan-in-flight/ends-early/after-%s' % prev, 'step %d: a scan advanced one message at a time '
+                                        'between other operations ended after %d of %d messages, history %s' % (step, sc['at'], len(sc['members']), hist[-8:]),
+                                        dict(history=hist, step=step, op='scan'))
+                        open_scans.remove(sc)
+                        m = None
+                    except Exception as e:
+                        ctx.violate('history-dependence/scan-in-flight/raises:%s/after-%s' % (type(e).__name__, prev), 'step %d: a scan advanced one message '
+                                    'at a time between other operations raised %s at its message %d, history %s' % (step, type(e).__name__, sc['at'], hist[-8:]),
+                                    dict(history=hist, step=step, op='scan'), exc=e)
+                        open_scans.remove(sc)
+                        m = None
+                    if m is not None:
+                        if j is None:
+                            ctx.violate('history-dependence/scan-in-flight/phantom/after-%s' % prev, 'step %d: a scan delivered more messages than its '
+                                        'stream holds, history %s' % (step, hist[-8:]), dict(history=hist, step=step, op='scan'))
+                            open_scans.remove(sc)
+                        else:
+                            sc['at'] += 1
+                            try:
+                                got = DG.message_digest(m)
+                            except Exception as e:
+                                got = {'digest-raises': type(e).__name__}
+                            compare(ctx, 'decode', got, gold[j]['digest'], j, pool[j][0], hist, step,
+                                    'scan-in-flight/' + ('alias-root' if sc['dn'].startswith('alt') else 'decode'), prev)
+                    prev = 'scan-step'
+                ctx.count('history_steps')
+                ctx.evaluated((hno, ctx.shard, step, tuple(hist[-3:])), True)
+                continue
+            elif r < 0.70:
                 op = 'failing-decode'
                 hist.append('%s:%s' % (op, name))
                 dn = rng.choice(list(decs))
